@@ -131,8 +131,10 @@ class StateMachine(metaclass=StateMachineMetaclass):
         state = self.__dict__.copy()
         state["_rtc"] = self._engine._rtc
         # the queue is not part of the state: remember an initial activation that is still pending
+        # (a snapshot of the queue: other threads may be sending events meanwhile)
         state["_initial_pending"] = any(
-            trigger_data.event == "__initial__" for trigger_data in self._engine._external_queue
+            trigger_data.event == "__initial__"
+            for trigger_data in tuple(self._engine._external_queue)
         )
         del state["_callbacks"]
         del state["_states_for_instance"]
